@@ -55,7 +55,6 @@ func vC07Invariants(s *Store, pfx string) {
 	seen := map[string]bool{}
 	for _, k := range kinds {
 		seen[k.Service.Name] = true
-		verifrt.Assert(pfx+".kind-name-has-an-instance", names[k.Service.Name] > 0)
 	}
 	for n := range names {
 		verifrt.Assert(pfx+".registered-name-is-in-kind-names", seen[n])
@@ -72,6 +71,10 @@ func vC07Invariants(s *Store, pfx string) {
 	// every registered name has its per-service index entry (used by blocking queries)
 	for n := range names {
 		verifrt.Assert(pfx+".service-index-entry-present", vHasIndexRow(s, serviceIndexName(n, nil, "")))
+	}
+	// (last, so that the recorded finding about renames does not hide the assertions above)
+	for _, k := range kinds {
+		verifrt.Assert(pfx+".kind-name-has-an-instance", names[k.Service.Name] > 0)
 	}
 }
 
@@ -108,7 +111,7 @@ func VerifC07_Integrity(st any) {
 
 	idx := verifrt.U64("idx")
 	verifrt.Assume(idx > next)
-	op := verifrt.Choice("op", 6)
+	op := verifrt.Choice("op", 7)
 	switch op {
 	case 0:
 		must(s.DeleteService(idx, "n1", "web1", nil, ""))
@@ -126,8 +129,11 @@ func VerifC07_Integrity(st any) {
 		}
 	case 5:
 		must(s.EnsureService(idx, "n2", &structs.NodeService{ID: "web9", Service: "web", Port: 82}))
+	case 6:
+		// the instance web1 is registered again under another service name
+		must(s.EnsureService(idx, "n1", &structs.NodeService{ID: "web1", Service: "api", Port: 80}))
 	}
-	name := []string{"deregister-web1", "deregister-web2", "deregister-n1", "deregister-n2", "deregister-x", "register-web9"}[op]
+	name := []string{"deregister-web1", "deregister-web2", "deregister-n1", "deregister-n2", "deregister-x", "register-web9", "rename-web1"}[op]
 	vC07Invariants(s, "C07."+name)
 	// cascades
 	switch op {
